@@ -107,7 +107,7 @@ ADDED = {
  "C16": " C16_only_link_failures_end_the_link is a theorem of M2 now (Receive refusing a done context, and a stub panicking on a call outcome — fact panicSitesCanonical — are model behaviour; witnesses on the flipped skeletons), C16_link_returns_the_slot, C16_proxy_failures_are_fatal; raw-peer children (bad closure id, refused error-response); fail-then-cancel; C16_setErr_waits_for_nobody (setErr takes only its own lock; the loops reach it without waiting); in-callback and context-wrapping fault cases.",
  "C17": " C17_closure_arglist_is_array + frames of closure invocations (0 and 2 closure arguments) decoded independently.",
 }
-STATE_PROPS = {"C01", "C02", "C03", "C04", "C05", "C06", "C07", "C11", "C12", "C13", "C14", "C15", "C16", "C19", "C20"}
+STATE_PROPS = {"C01", "C02", "C03", "C04", "C05", "C06", "C07", "C09", "C10", "C11", "C12", "C13", "C14", "C15", "C16", "C19", "C20"}
 PENDING = {}
 checks = []
 na = []
